@@ -121,7 +121,8 @@ def gen_plan(rng):
         'window': rng.choice([1000, 65536, 2097152]),
         'cut': cut,
         'dyn_ports': mode == 'remote' and rng.chance(40),
-        'dup_listen': mode == 'remote_unix' and rng.chance(40),
+        'dup_listen': mode in ('remote_unix', 'local_unix') and
+        rng.chance(40),
         'eager': mode == 'remote' and rng.chance(30),
         'socks_stuck': rng.choice([None, None, 'fin', 'hold'])
         if mode == 'socks' else None,
@@ -585,6 +586,17 @@ def run_plan(plan, sched_seed=None, sched_replay=None):
                 for i in (0, 1):
                     listeners[i] = await conn.forward_local_path(
                         '/listen%d.sock' % i, '/dest%d.sock' % i)
+
+                if plan.get('dup_listen'):
+                    # the same path once more: refused (as a TCP port in
+                    # use is), or at least not left behind
+                    sim.probes['duplicate_listen_request'] += 1
+
+                    try:
+                        res['dup'] = await conn.forward_local_path(
+                            '/listen0.sock', '/dest0.sock')
+                    except (asyncssh.Error, OSError) as exc:
+                        res['dup_error'] = exc
             elif mode == 'remote_unix':
                 for i in (0, 1):
                     listeners[i] = await conn.forward_remote_path(
